@@ -119,8 +119,13 @@ EXPORT errno_t _strncpy_s_chk(char *restrict dest, rsize_t dmax,
     char *orig_dest;
     const char *overlap_bumper;
 
-    if (unlikely(slen == 0 && dest && dmax && dmax <= RSIZE_MAX_STR)) {
+    if (unlikely(slen == 0 && dest && dmax && dmax <= RSIZE_MAX_STR &&
+                 dmax <= destbos)) {
+#ifdef SAFECLIB_STR_NULL_SLACK
+        memset(dest, 0, dmax);
+#else
         *dest = '\0';
+#endif
         return EOK;
     }
     CHK_DEST_NULL("strncpy_s")
